@@ -1,5 +1,6 @@
 import AidlVerif.Driver.Codec
 import AidlVerif.Model.Validation
+import AidlVerif.Props.C07
 
 /-
   Model driver: one JSON case per input line, one JSON verdict per output line.
@@ -17,12 +18,26 @@ open Aidl.Codec
 structure Verdict where
   corr : List (String × Bool) := []
   spec : List (String × Bool) := []
+  /-- decidable hypotheses of the theorems, evaluated on this case -/
+  assume : List (String × Bool) := []
   detail : List (String × Json) := []
+  /-- is the case non-trivial for the property being checked? -/
+  nontrivial : Bool := true
+  /-- histogram contributions (input distribution) -/
+  dist : List (String × Nat) := []
+
+def Verdict.addCorr (v : Verdict) (k : String) (b : Bool) : Verdict := { v with corr := v.corr ++ [(k, b)] }
+def Verdict.addSpec (v : Verdict) (k : String) (b : Bool) : Verdict := { v with spec := v.spec ++ [(k, b)] }
+def Verdict.addAssume (v : Verdict) (k : String) (b : Bool) : Verdict := { v with assume := v.assume ++ [(k, b)] }
+def Verdict.addDetail (v : Verdict) (k : String) (j : Json) : Verdict := { v with detail := v.detail ++ [(k, j)] }
 
 def Verdict.toJson (case : Json) (v : Verdict) : Json :=
   Json.mkObj [("case", case),
     ("corr", Json.mkObj (v.corr.map (fun (k, b) => (k, Json.bool b)))),
     ("spec", Json.mkObj (v.spec.map (fun (k, b) => (k, Json.bool b)))),
+    ("assume", Json.mkObj (v.assume.map (fun (k, b) => (k, Json.bool b)))),
+    ("nontrivial", Json.bool v.nontrivial),
+    ("dist", Json.mkObj (v.dist.map (fun (k, n) => (k, Json.num n)))),
     ("detail", Json.mkObj v.detail)]
 
 def firstDiff {α} [DecidableEq α] (enc : α → Json) (a b : List α) : Json :=
@@ -37,7 +52,45 @@ def firstDiff {α} [DecidableEq α] (enc : α → Json) (a b : List α) : Json :
 def sortById (l : List FileResult) : List FileResult :=
   (l.toArray.qsort (fun a b => a.id < b.id)).toList
 
-def opValidate (j : Json) : R Verdict := do
+def bump (d : List (String × Nat)) (k : String) : List (String × Nat) :=
+  match d with
+  | [] => [(k, 1)]
+  | (k', n) :: rest => if k' = k then (k', n + 1) :: rest else (k', n) :: bump rest k
+
+/-- what a validation-level property handler sees -/
+structure ValCtx where
+  stage1 : List FileResult      -- implementation's syntax stage (input of the model)
+  out : List FileResult         -- implementation's validate()
+  model : List FileResult       -- model's validate (hash order = identity), sorted by id
+  defined : Defined
+
+def groupsOf (c : ValCtx) (fr : FileResult) : Option (Groups × List Diag) :=
+  match fr.ast with
+  | none => none
+  | some ast => match validateGroups HashOrder.id c.defined fr.diags ast with
+    | .error _ => none
+    | .ok g => match idDiagsLoop {} (Spec.methodsOf g.ast) with
+      | .error _ => none
+      | .ok ids => some (g, ids)
+
+def catName (c : Spec.Category) : String := (reprStr c).replace "Aidl.Spec.Category." ""
+
+def handleC07 (c : ValCtx) (v : Verdict) : Verdict :=
+  let v := v.addCorr "C07" (decide (c.model.map Spec.C07.proj = c.out.map Spec.C07.proj))
+  let v := v.addSpec "C07" (c.out.all Spec.C07.holdsFile)
+  let v := v.addAssume "C07" (c.stage1.all fun fr => match groupsOf c fr with
+    | none => true
+    | some (g, ids) => decide (Props.C07.Fresh g ids))
+  let args := c.out.flatMap fun fr => match fr.ast with
+    | none => []
+    | some ast => (Spec.C07.argsOf ast).map fun p =>
+        s!"{catName (Spec.Category.of p.2.argType.kind)}/{reprStr (Spec.C07.dirOf p.2.direction)}/{p.1.oneway}"
+  { v with nontrivial := !args.isEmpty, dist := args.foldl bump v.dist }
+
+def valHandlers : List (String × (ValCtx → Verdict → Verdict)) :=
+  [("C07", handleC07)]
+
+def opValidate (prop : String) (j : Json) : R Verdict := do
   let impl ← fld j "impl"
   let outcome ← str (← fld impl "outcome")
   if outcome ≠ "ok" then
@@ -45,23 +98,32 @@ def opValidate (j : Json) : R Verdict := do
   let stage1 ← list fileResult (← fld impl "stage1")
   let out ← list fileResult (← fld impl "out")
   let mut v : Verdict := {}
+  let mut model : Option (List FileResult) := none
   for (name, ho) in [("id", HashOrder.id), ("rev", HashOrder.rev)] do
     match validate ho stage1 with
     | .error e =>
-      v := { v with corr := v.corr ++ [("outcome", false)], detail := v.detail ++ [("model_panic", Json.str e)] }
+      v := (v.addCorr "outcome" false).addDetail "model_panic" (Json.str e)
     | .ok m =>
       let m := sortById m
+      if name == "id" then model := some m
       let same := decide (m = out)
-      v := { v with corr := v.corr ++ [("full_" ++ name, same)] }
+      v := v.addCorr ("full_" ++ name) same
       if !same then
         let d := (m.zip out).filterMap (fun (a, b) =>
           if a = b then none else
             some (Json.mkObj [("id", a.id), ("ast_equal", decide (a.ast = b.ast)),
               ("diag", firstDiff encDiag a.diags b.diags)]))
-        v := { v with detail := v.detail ++ [("diff_" ++ name, Json.arr d.toArray)] }
+        v := v.addDetail ("diff_" ++ name) (Json.arr d.toArray)
+  -- per-property projections, specifications (on the implementation's output) and hypotheses
+  match model with
+  | none => pure ()
+  | some m =>
+    let ctx : ValCtx := { stage1, out, model := m, defined := collectItemKeys stage1 }
+    for (p, h) in valHandlers do
+      if prop == p || prop == "all" then v := h ctx v
   return v
 
-def handle (line : String) : Json :=
+def handle (prop : String) (line : String) : Json :=
   match Json.parse line with
   | .error e => Json.mkObj [("error", s!"json: {e}")]
   | .ok j =>
@@ -69,22 +131,22 @@ def handle (line : String) : Json :=
     match (do
       let op ← str (← fld j "op")
       match op with
-      | "validate" => opValidate j
+      | "validate" => opValidate prop j
       | _ => throw s!"unknown op {op}" : R Verdict) with
     | .ok v => v.toJson case
     | .error e => Json.mkObj [("case", case), ("error", e)]
 
-partial def loop (hin : IO.FS.Stream) (hout : IO.FS.Stream) : IO Unit := do
+partial def loop (prop : String) (hin : IO.FS.Stream) (hout : IO.FS.Stream) : IO Unit := do
   let line ← hin.getLine
   if line.isEmpty then return ()
-  if line.trimAscii.toString.isEmpty then loop hin hout else
-  hout.putStrLn (handle line).compress
-  loop hin hout
+  if line.trimAscii.toString.isEmpty then loop prop hin hout else
+  hout.putStrLn (handle prop line).compress
+  loop prop hin hout
 
-def main (_args : List String) : IO UInt32 := do
+def main (args : List String) : IO UInt32 := do
   let hin ← IO.getStdin
   let hout ← IO.getStdout
-  loop hin hout
+  loop (args.headD "all") hin hout
   hout.flush
   return 0
 
